@@ -152,7 +152,7 @@ void DOMElementNSImpl::setPrefix(const XMLCh *prefix)
     if (newQualifiedNameLen >= 255)
       newName = (XMLCh*) doc->getMemoryManager()->allocate
         (
-            newQualifiedNameLen * sizeof(XMLCh)
+            (newQualifiedNameLen + 1) * sizeof(XMLCh)
         );//new XMLCh[newQualifiedNameLen];
     else
         newName = temp;
